@@ -10,6 +10,7 @@ import (
 
 	"github.com/resonatehq/resonate/internal/verif/runner"
 	"github.com/resonatehq/resonate/internal/verif/vx"
+	"github.com/resonatehq/resonate/internal/verif/world"
 )
 
 // ScenarioJob explores one scenario exhaustively (within its bound).
@@ -65,7 +66,7 @@ func (j *ScenarioJob) Run(deadline time.Time) *runner.JobResult {
 		if j.OnExec != nil {
 			j.OnExec(r)
 		}
-		if !r.Cut && len(r.Viol) == 0 {
+		if !r.Cut && !sc.unknownViolationIn(r.Viol) {
 			outcomes[h8(r.Outcome)] = true
 			if len(res.Samples) < 2 {
 				res.Samples = append(res.Samples, map[string]any{"schedule": r.Labels})
@@ -111,6 +112,15 @@ func (j *ScenarioJob) Run(deadline time.Time) *runner.JobResult {
 		j.Finish(res)
 	}
 	return res
+}
+
+func (sc *Scenario) unknownViolationIn(vs []world.Violation) bool {
+	for _, v := range vs {
+		if !sc.Known[v.Sig] {
+			return true
+		}
+	}
+	return false
 }
 
 // ReplayScenario re-runs one recorded choice list and prints what happened.
